@@ -7199,6 +7199,11 @@ impl RtpReceiver {
     /// returns when its command channel is closed.
     pub(crate) fn stop(&self) {
         self.runner_tx.lock().take();
+        // The simulcast layer tracks end with the receiver, like its main track:
+        // a recv() pending on one of them would otherwise never return.
+        for (_, track, _, _) in self.simulcast_tracks.lock().values() {
+            track.stop();
+        }
     }
 
     pub fn set_transport(
